@@ -54,7 +54,6 @@ theorem kernel_paeth (a b c : UInt8) :
   · rw [h3.1]; simp [paethFpnge]
 
 /-- non-vacuity / sanity: the translated functions compute -/
-example : Gen.filter_paeth 10 20 15 = 15 ∧ Gen.filter_paeth_stbi 200 3 100 = 100 ∧ Gen.filter_paeth_fpnge 1 2 3 = 1 ∧
-    Gen.translatedFilter = ["filter_paeth", "filter_paeth_stbi", "filter_paeth_fpnge"] := by decide
+example : Gen.filter_paeth 10 20 15 = 15 ∧ Gen.filter_paeth_stbi 200 3 100 = 100 ∧ Gen.filter_paeth_fpnge 1 2 3 = 1 := by decide
 
 end Png.Kernels
